@@ -136,10 +136,11 @@ func infoOf(k int, c *patcher.Checkpoint, gobLen int) cpInfo {
 type workspace struct {
 	root, work, stage, out string // overlay: work = copy of old, stage; fresh: out
 	bowl                   string
+	oldEOF                 bool // the old build is read through readers that return their last bytes with io.EOF
 }
 
 func newWorkspace(root, oldDir, bowlKind string, id int) (*workspace, error) {
-	ws := &workspace{root: filepath.Join(root, fmt.Sprintf("ws%d", id)), bowl: bowlKind}
+	ws := &workspace{root: filepath.Join(root, fmt.Sprintf("ws%d", id)), bowl: bowlKind, oldEOF: id%3 == 1}
 	if err := os.MkdirAll(ws.root, 0755); err != nil {
 		return nil, err
 	}
@@ -160,7 +161,7 @@ func newWorkspace(root, oldDir, bowlKind string, id int) (*workspace, error) {
 }
 
 func (ws *workspace) opts(cons patcher.SaveConsumer, from *patcher.Checkpoint) applyOpts {
-	return applyOpts{Bowl: ws.bowl, OldDir: ws.work, OutDir: ws.out, StageDir: ws.stage, Consumer: cons, From: from}
+	return applyOpts{Bowl: ws.bowl, OldDir: ws.work, OutDir: ws.out, StageDir: ws.stage, Consumer: cons, From: from, OldEOF: ws.oldEOF}
 }
 
 func (ws *workspace) resultDir() string {
